@@ -158,6 +158,132 @@ class PathFacts:
         return M.prove_goals([(t, c) for t, c in self.cons], [], goals, True, ne_zero)
 
 
+UMAX = (1 << 64) - 1
+
+
+def eval_node(n, val):
+    """Value of a pure expression under a sample valuation {canon text: int|bool}; None when not determined."""
+    n = H.peel(n)
+    k = n.get("k")
+    c = H.canon(n)
+    if c in val:
+        return val[c]
+    if c in ("MAX", "usize::MAX", "core::usize::MAX", "std::usize::MAX"):
+        return UMAX
+    if k == "Lit":
+        t = n["lit"]["t"]
+        if t in ("int", "bool"):
+            return n["lit"]["v"]
+        return None
+    if k == "Unary" and n.get("op") == "Not":
+        v = eval_node(n["e"], val)
+        return (not v) if isinstance(v, bool) else None
+    if k == "Cast":
+        return eval_node(n["e"], val)
+    if k == "Binary":
+        op = n["op"]
+        a = eval_node(n["l"], val)
+        if op in ("And", "Or") and isinstance(a, bool):
+            if (op == "And" and not a) or (op == "Or" and a):
+                return a
+            return eval_node(n["r"], val)
+        b = eval_node(n["r"], val)
+        if a is None or b is None:
+            return None
+        try:
+            return {"Lt": lambda: a < b, "Le": lambda: a <= b, "Gt": lambda: a > b, "Ge": lambda: a >= b, "Eq": lambda: a == b,
+                    "Ne": lambda: a != b, "Add": lambda: a + b, "Sub": lambda: a - b, "Mul": lambda: a * b,
+                    "And": lambda: a and b, "Or": lambda: a or b}[op]()
+        except (KeyError, TypeError):
+            return None
+    return None
+
+
+def _split_top(s):
+    parts, depth, cur = [], 0, ""
+    for ch in s:
+        if ch in "([{":
+            depth += 1
+        elif ch in ")]}":
+            depth -= 1
+        if ch == "," and depth == 0:
+            parts.append(cur)
+            cur = ""
+        else:
+            cur += ch
+    parts.append(cur)
+    return parts
+
+
+def pat_accepts(pat, scrut, val):
+    """Does the canonical pattern text accept the scrutinee under the valuation?  True / False / None (unknown)."""
+    pat = pat.strip()
+    if "|" in pat and not pat.startswith("("):
+        rs = [pat_accepts(p_, scrut, val) for p_ in pat.split("|")]
+        return True if any(r is True for r in rs) else (None if any(r is None for r in rs) else False)
+    if pat == "_" or re.match(r"^(ref )?(mut )?[a-z_][a-z_0-9]*$", pat):
+        return True
+    if pat.startswith("(") and pat.endswith(")") and scrut.startswith("(") and scrut.endswith(")"):
+        ps, ss = _split_top(pat[1:-1]), _split_top(scrut[1:-1])
+        if len(ps) != len(ss):
+            return None
+        rs = [pat_accepts(p_, s_, val) for p_, s_ in zip(ps, ss)]
+        return False if any(r is False for r in rs) else (None if any(r is None for r in rs) else True)
+    v = val.get(scrut.strip())
+    if v is None:
+        return None
+    if pat == "MAX" or pat.endswith("::MAX"):
+        return v == UMAX
+    if re.match(r"^\d+$", pat):
+        return v == int(pat)
+    if pat in ("true", "false"):
+        return v == (pat == "true")
+    m = re.match(r"^(\d+)\.\.=(\d+|MAX)$", pat)
+    if m:
+        hi = UMAX if m.group(2) == "MAX" else int(m.group(2))
+        return int(m.group(1)) <= v <= hi
+    return None
+
+
+def consistent(path, val):
+    """Is the path feasible under the sample valuation?  True / False / None (a decision could not be evaluated)."""
+    unknown = False
+    for ev in path.events:
+        if ev.kind == "cond":
+            v = eval_node(ev.node, val) if ev.node is not None else None
+            if v is None and ev.a in val:
+                v = val[ev.a]
+            if v is None:
+                unknown = True
+            elif bool(v) != bool(ev.b):
+                return False
+        elif ev.kind == "arm":
+            r = pat_accepts(ev.b, ev.a or "", val)
+            if r is False:
+                return False
+            if r is None:
+                unknown = True
+            for q in ev.c or ():
+                rq = pat_accepts(q, ev.a or "", val)
+                if rq is True:
+                    return False
+                if rq is None:
+                    unknown = True
+        elif ev.kind in ("assign", "havoc") and ev.kind == "assign" and ev.a in val:
+            unknown = True
+    return None if unknown else True
+
+
+def int_constants(node):
+    out = set()
+    for nd in H.walk(node):
+        if nd.get("k") == "Lit" and nd["lit"]["t"] == "int":
+            out.add(nd["lit"]["v"])
+        if nd.get("k") == "ExprPat" and "lit" in nd and nd["lit"]["t"] == "int":
+            out.add(nd["lit"]["v"])
+    return out
+
+
 def call_events(path, callee_suffix):
     """Indices of call events whose resolved callee path ends with the suffix."""
     out = []
